@@ -6,6 +6,7 @@ CONSTANTS
   KR = 0
   WPats <- WPatsLong
   RPats <- RPatsLong
+  QueueCap = 250
   Chunk = 4096
   SendMech = "repaired"
   RecvMech = "repaired"
